@@ -749,6 +749,40 @@ func TestVerifC18(t *testing.T) {
 					st.Emit(fmt.Sprintf("adv %d", int64(realDomainProbeTimeout+100*time.Millisecond)), "ok")
 				}
 			}
+			if ep%8 == 0 {
+				// directed scenario (known finding c18-pipe-in-qname-crosses-knowledge-family, fixed in 4e63a53): one
+				// NOERROR response for "<victim>.1|x.attacker.example." must not make <victim> genuine
+				victim := fmt.Sprintf("never-resolved-%d.invalid", ep) // never resolved, never probed positively
+				setMode("domain")
+				q := dnsmessage.Question{Name: victim + ".1|x.attacker.example.", Qtype: dnsmessage.TypeA, Qclass: dnsmessage.ClassINET}
+				key := w.ctrl.responseCacheKey(w.ctrl.questionCacheKey(q), &udpRequest{realDst: netip.MustParseAddrPort("8.8.8.8:53")}, consts.DnsRequestOutboundIndex_AsIs, nil)
+				msg := &dnsmessage.Msg{MsgHdr: dnsmessage.MsgHdr{Response: true, Rcode: dnsmessage.RcodeSuccess}, Question: []dnsmessage.Question{q},
+					Answer: []dnsmessage.RR{&dnsmessage.A{Hdr: dnsmessage.RR_Header{Name: q.Name, Rrtype: dnsmessage.TypeA, Class: dnsmessage.ClassINET, Ttl: 600}, A: net.IPv4(198, 51, 100, 1)}}}
+				stats.Inc("op.pipe-scenario")
+				st.Emit(fmt.Sprintf("dnsresp 1 1 1 %s 1 600 %s", c18Hex(q.Name), c18Hex(key)), VRecover(func() string {
+					if err := w.ctrl.NormalizeAndCacheDnsResp_(msg, key); err != nil {
+						return "err:" + err.Error()
+					}
+					keys = append(keys, key)
+					return "ok"
+				}))
+				dstV := netip.MustParseAddrPort("203.0.113.9:443")
+				ansV := answers(victim)
+				for i := range ansV {
+					ansV[i] = "0011"
+				}
+				w.script[victim] = ansV
+				st.Emit(strings.TrimRight(fmt.Sprintf("cdt 2 %s %s %s", c18DstTok(dstV), c18Hex(victim), strings.Join(ansV, " ")), " "), VRecover(func() string {
+					w.calls = 0
+					target, reroute, dialIp := w.cp.ChooseDialTarget(2, dstV, victim)
+					settle(ansV)
+					out := fmt.Sprintf("t=%s rr=%s ip=%s probe=%s", c18Hex(target), c18Bool(reroute), c18Bool(dialIp), c18Bool(w.calls > 0))
+					if target != dstV.String() {
+						out += " ORACLE:a-question-name-with-bar-made-another-name-genuine"
+					}
+					return out
+				}))
+			}
 			nOps := 12 + r.Intn(30)
 			for k := 0; k < nOps; k++ {
 				switch c := r.Intn(24) - 4; {
@@ -756,6 +790,10 @@ func TestVerifC18(t *testing.T) {
 					host := pool[r.Intn(len(pool))]
 					if r.Chance(0.2) {
 						host = genA.caseVariant(host)
+					}
+					if r.Chance(0.15) { // '|' is a legal byte of a label: such a name must stay in its own key family
+						host += []string{".1|x.zone.test", ".28|x.zone.test", "|b.test", ".1|"}[r.Intn(4)]
+						stats.Inc("op.dnsresp.name-with-bar")
 					}
 					qname := dnsmessage.Fqdn(host)
 					qtype := []uint16{dnsmessage.TypeA, dnsmessage.TypeA, dnsmessage.TypeAAAA, dnsmessage.TypeAAAA, dnsmessage.TypeHTTPS, dnsmessage.TypeTXT}[r.Intn(6)]
@@ -776,7 +814,9 @@ func TestVerifC18(t *testing.T) {
 					}
 					key := ""
 					if r.Chance(0.5) {
-						key = w.ctrl.cacheKey(qname, qtype) + "|" + []string{"asis@1.1.1.1:53", "u0"}[r.Intn(2)]
+						// the key the production DNS path builds (questionCacheKey -> responseCacheKey)
+						key = w.ctrl.responseCacheKey(w.ctrl.questionCacheKey(dnsmessage.Question{Name: qname, Qtype: qtype, Qclass: dnsmessage.ClassINET}),
+							&udpRequest{realDst: netip.MustParseAddrPort([]string{"1.1.1.1:53", "8.8.8.8:53"}[r.Intn(2)])}, consts.DnsRequestOutboundIndex_AsIs, nil)
 					}
 					stats.Inc("op.dnsresp")
 					if rcode == dnsmessage.RcodeSuccess && len(msg.Answer) == 0 && isResp && hasQ {
@@ -924,6 +964,9 @@ func TestVerifC18(t *testing.T) {
 						host = genA.caseVariant(host)
 					case 2: // a question name that is an address literal: the "pure IP" bypass
 						host = append(append([]string{}, c18V4...), "::1", "2001:db8::1", "1.2.3.4.")[r.Intn(len(c18V4)+3)]
+					case 3:
+						host += []string{".1|x.zone.test", ".28|x.zone.test", "|b.test"}[r.Intn(3)]
+						stats.Inc("op.dns.name-with-bar")
 					}
 					is4 := r.Chance(0.6)
 					qtype, fam := dnsmessage.TypeAAAA, "28"
@@ -933,7 +976,8 @@ func TestVerifC18(t *testing.T) {
 					ttl := []int{0, 1, 2, 2, 5, 30, 600}[r.Intn(7)]
 					key := ""
 					if r.Chance(0.35) {
-						key = w.ctrl.cacheKey(host, qtype) + "|" + []string{"asis@1.1.1.1:53", "asis@8.8.8.8:53", "u0"}[r.Intn(3)]
+						key = w.ctrl.responseCacheKey(w.ctrl.cacheKey(host, qtype),
+							&udpRequest{realDst: netip.MustParseAddrPort([]string{"1.1.1.1:53", "8.8.8.8:53"}[r.Intn(2)])}, consts.DnsRequestOutboundIndex_AsIs, nil)
 					}
 					fq := dnsmessage.CanonicalName(host)
 					ans := []dnsmessage.RR{&dnsmessage.A{Hdr: dnsmessage.RR_Header{Name: fq, Rrtype: dnsmessage.TypeA, Class: dnsmessage.ClassINET, Ttl: 0}, A: net.IPv4(93, 184, 216, 34)}}
